@@ -340,10 +340,14 @@ func (c *ClientConn) maybePrepareAndExecute(request Request, raw *frame.RawFrame
 		}
 		id := hex.EncodeToString(msg.Id)
 		if prepare, ok := c.preparedCache.Load(id); ok {
-			err = c.Send(&prepareRequest{
-				prepare:     prepare.PreparedFrame,
-				origRequest: request,
-			})
+			var prepareFrame *frame.RawFrame
+			prepareFrame, err = prepareFrameForRequest(prepare.PreparedFrame, request)
+			if err == nil {
+				err = c.Send(&prepareRequest{
+					prepare:     prepareFrame,
+					origRequest: request,
+				})
+			}
 			if err != nil {
 				c.logger.Error("failed to prepare query after receiving an unprepared error response",
 					zap.String("host", c.conn.RemoteAddr().String()),
@@ -383,9 +387,55 @@ func (c *ClientConn) maybeCachePrepared(request Request, raw *frame.RawFrame) {
 		}
 		c.preparedCache.Store(hex.EncodeToString(msg.PreparedQueryId),
 			&PreparedEntry{
-				request.Frame().(*frame.RawFrame), // Store frame so we can re-prepare
+				c.portablePrepareFrame(request.Frame().(*frame.RawFrame)), // Store frame so we can re-prepare
 			})
 	}
+}
+
+// portablePrepareFrame returns a `PREPARE` request frame that can be used to re-prepare on any connection. The cache is
+// shared by sessions using different compression algorithms (or none), so a compressed body is decompressed using
+// this connection's codec, which is the one the frame was compressed for.
+func (c *ClientConn) portablePrepareFrame(raw *frame.RawFrame) *frame.RawFrame {
+	if !raw.Header.Flags.Contains(primitive.HeaderFlagCompressed) {
+		return raw
+	}
+	frm, err := c.codec.ConvertFromRawFrame(raw)
+	if err != nil {
+		c.logger.Error("failed to decompress prepare request for the prepared cache", zap.Error(err))
+		return raw
+	}
+	hdr := *raw.Header
+	hdr.Flags = hdr.Flags.Remove(primitive.HeaderFlagCompressed)
+	portable, err := codecs.CustomRawCodec.ConvertToRawFrame(&frame.Frame{Header: &hdr, Body: frm.Body})
+	if err != nil {
+		c.logger.Error("failed to encode prepare request for the prepared cache", zap.Error(err))
+		return raw
+	}
+	return portable
+}
+
+// prepareFrameForRequest returns the cached `PREPARE` frame in the protocol version used by the request that needs it.
+// The cache is shared by sessions using different protocol versions, so the frame is re-encoded if the versions differ.
+func prepareFrameForRequest(prepare *frame.RawFrame, request Request) (*frame.RawFrame, error) {
+	var version primitive.ProtocolVersion
+	switch frm := request.Frame().(type) {
+	case *frame.Frame:
+		version = frm.Header.Version
+	case *frame.RawFrame:
+		version = frm.Header.Version
+	default:
+		return prepare, nil
+	}
+	if prepare.Header.Version == version {
+		return prepare, nil
+	}
+	frm, err := codecs.CustomRawCodec.ConvertFromRawFrame(prepare)
+	if err != nil {
+		return nil, err
+	}
+	hdr := *prepare.Header
+	hdr.Version = version
+	return codecs.CustomRawCodec.ConvertToRawFrame(&frame.Frame{Header: &hdr, Body: frm.Body})
 }
 
 func (c *ClientConn) Closing(err error) {
